@@ -74,11 +74,15 @@ def typed_searches(ref: Conf, p: str):
 def denote(ref: Conf, s: str):
     """-> (required:set of uri, allowed:set of uri); raises SpilExc for the two malformed shapes."""
     required, allowed = set(), set()
+    del GROUPS[:]
     for p, q in alternatives(ref, s):
         r, a = denote_one(ref, p, q)
         required |= r
         allowed |= a
     return required, allowed | required
+
+
+GROUPS: list = []     # side channel of the last denote(): sets of uris of which at least one must be in the result
 
 
 def _apply(ref, typ, d, st, q):
@@ -101,6 +105,18 @@ def denote_one(ref: Conf, p: str, q: str):
             continue
         else:
             req = alw = [(typ, d)]
+        if alw and not req:
+            # the filter fits several types (none the current one): which one is taken is open, dropping the search is not
+            grp = set()
+            for ty, dd in alw:
+                nq = ref.narrow.get(ref.basetype(ty), "")
+                if nq:
+                    for t3, d3 in _apply(ref, ty, dd, ref.canonical(ty, dd), nq)[1]:
+                        grp.add(t3 + ":" + ref.canonical(t3, d3))
+                else:
+                    grp.add(ty + ":" + ref.canonical(ty, dd))
+            if grp and ref.is_search_text(st + "?" + q):
+                GROUPS.append(grp)
         for lst, target in ((req, required), (alw, allowed)):
             for ty, dd in lst:
                 nq = ref.narrow.get(ref.basetype(ty), "")
